@@ -366,7 +366,7 @@ def _where(t, exc):
 # ---------------------------------------------------------------------------------------------------
 # subscription
 VARS = ["machine.mv_a", "machine.mv_b", "settings.set_int", "current_player.pv_a", "device.counters.c1.value",
-        "machine.mv_c"]
+        "machine.mv_c", "settings.set_alias"]
 vleaf = st.sampled_from(VARS).map(lambda a: ["attr", a])
 sval = st.integers(0, 4)
 
@@ -389,6 +389,7 @@ case_sub = st.fixed_dictionaries({
     "tree": _stree(),
     "init": st.fixed_dictionaries({v: st.integers(0, 2) for v in VARS}),
     "changes": st.lists(st.tuples(st.sampled_from(VARS), sval).map(list), min_size=1, max_size=8),
+    "ag": st.lists(st.sampled_from(["ag_select", "ag_rotate", "ag_rotate"]), max_size=3),
 })
 
 
@@ -465,6 +466,23 @@ def check_sub(case):
                                              "told %r and has not been notified" % (src, env, cur, exp[1])))
                 except (Default, Unspecified, TooBig):
                     pass
+        if not vio and case.get("ag"):
+            # a monitored attribute under an alias that starts as None (achievement group: selected_member)
+            ag = rig.machine.achievement_groups["ag"]
+            t2 = pm.build_raw_template("device.achievement_groups.ag.selected_member")
+            for evname in case["ag"]:
+                before = ag._selected_member        # pylint: disable=protected-access
+                _, f2 = t2.evaluate_and_subscribe({})
+                rig.machine.events.post(evname)
+                rig.advance(0.01)
+                after = ag._selected_member         # pylint: disable=protected-access
+                if after is not before:
+                    classes.add("aliased attribute changed" + (" from None" if before is None else ""))
+                    if not f2.done():
+                        vio.append(violation("stale-no-notification:device-alias", "achievement group ag: selected_member changed "
+                                             "%r -> %r after %s but the subscription of 'device.achievement_groups.ag."
+                                             "selected_member' was not notified" % (before, after, evname)))
+                        break
         exc = rig.exception_summaries()
     if exc:
         vio.append(violation("loop-exception", "exception reached the loop: %s" % exc[:2]))
